@@ -176,6 +176,15 @@ func C09(r *ev.Report) {
 func init() {
 	Parts["C09"] = Part{"C09", C09}
 	Replayers["C09"] = func(c Case) (bool, string) {
+		switch c["op"] {
+		case "bin", "equals", "unary", "predicate", "neighbour", "sqrt", "parse", "wide", "Add", "Subtract", "Multiply", "Square", "Invert", "Pow", "SetUInt64", "persist":
+			if c["op"] != "wide" || len(c["msg"]) == 0 {
+				if f, ok := Replayers["C06"]; ok && c["op"] != "hash" {
+					return f(c)
+				}
+			}
+		}
+
 		var key, detail string
 
 		switch c["op"] {
